@@ -92,6 +92,14 @@ CORPUS = [
     (["dc", "X3", {"allow_deserialization_not_by_alias": True}, [[{"name": "a", "alias": None, "default": None, "init": True, "omit": False}, "int"]]], ["map", "dict", [[["s", "None"], ["i", "5"]], [["s", "a"], ["i", "1"]]]], "mixin"),
     (["dc", "X4", {}, [[{"name": "a", "alias": None, "default": None, "init": True, "omit": False}, ["map", "mproxy", "str", "int"]]]], ["map", "dict", []], "mixin"),
 ]
+# classes WITHOUT constructor parameters (no fields at all / only init=False members): the argument is
+# checked like everywhere else (finding F42)
+_NOINIT = [{"name": "n", "alias": None, "default": ["some", ["i", "1"]], "init": False, "omit": False}, "int"]
+for _fs, _nm in (([], "XE"), ([_NOINIT], "XN")):
+    for _e in ("mixin", "codec"):
+        for _d in (["i", "5"], None, ["coll", "list", [["i", "1"]]], ["s", "abc"], ["map", "dict", []], ["map", "dict", [[["s", "z"], ["i", "1"]]]]):
+            CORPUS.append((["dc", _nm, {}, _fs], _d, _e))
+            CORPUS.append((["dc", _nm + "F", {"forbid_extra_keys": True}, _fs], _d, _e))
 
 
 def alias_family():
